@@ -17,6 +17,7 @@ import (
 	stdasn1 "encoding/asn1"
 	"errors"
 	"math/big"
+	"strings"
 	"sync"
 	"time"
 )
@@ -240,21 +241,26 @@ func reissueUnder(tbs []byte, pre *x509.Certificate) ([]byte, error) {
 
 var (
 	preChainOnce sync.Once
-	preChainDER  [][]byte
+	preChainKeys [3]*ecdsa.PrivateKey // final CA, Precertificate Signing Certificate, leaf
+	preChainCA   *x509.Certificate
+	preChainPre  *x509.Certificate
+	preChainTop  [][]byte // DER of [signing certificate, CA]
+	preChainMu   sync.Mutex
+	preChainBy   = map[string][][]byte{}
 )
 
-// PreIssuerChain returns (generated once per run) the DER of [precertificate, Precertificate Signing Certificate (CT EKU), CA]:
-// the precertificate carries the critical poison extension and is signed by the signing certificate, which the CA issued.
-func PreIssuerChain() [][]byte {
+var oidSAN = stdasn1.ObjectIdentifier{2, 5, 29, 17}
+
+func preChainSetup() {
 	preChainOnce.Do(func() {
-		mk := func() *ecdsa.PrivateKey {
+		for i := range preChainKeys {
 			k, err := ecdsa.GenerateKey(elliptic.P256(), rand.Reader)
 			if err != nil {
 				panic(err)
 			}
-			return k
+			preChainKeys[i] = k
 		}
-		caKey, preKey, leafKey := mk(), mk(), mk()
+		caKey, preKey := preChainKeys[0], preChainKeys[1]
 		nb, na := time.Date(2020, 1, 1, 0, 0, 0, 0, time.UTC), time.Date(2040, 1, 1, 0, 0, 0, 0, time.UTC)
 		caT := &x509.Certificate{SerialNumber: big.NewInt(1), Subject: pkix.Name{CommonName: "verif final CA"}, NotBefore: nb, NotAfter: na, IsCA: true,
 			BasicConstraintsValid: true, KeyUsage: x509.KeyUsageCertSign, SubjectKeyId: []byte{1, 1, 1, 1}}
@@ -262,25 +268,125 @@ func PreIssuerChain() [][]byte {
 		if err != nil {
 			panic(err)
 		}
-		ca, _ := x509.ParseCertificate(caDER)
+		preChainCA, _ = x509.ParseCertificate(caDER)
 		preT := &x509.Certificate{SerialNumber: big.NewInt(2), Subject: pkix.Name{CommonName: "verif precertificate signing certificate"}, NotBefore: nb, NotAfter: na, IsCA: true,
 			BasicConstraintsValid: true, KeyUsage: x509.KeyUsageCertSign | x509.KeyUsageDigitalSignature, SubjectKeyId: []byte{2, 2, 2, 2},
 			UnknownExtKeyUsage: []stdasn1.ObjectIdentifier{oidCTEKU}}
-		preDER, err := x509.CreateCertificate(rand.Reader, preT, ca, &preKey.PublicKey, caKey)
+		preDER, err := x509.CreateCertificate(rand.Reader, preT, preChainCA, &preKey.PublicKey, caKey)
 		if err != nil {
 			panic(err)
 		}
-		pre, _ := x509.ParseCertificate(preDER)
-		leafT := &x509.Certificate{SerialNumber: big.NewInt(3), Subject: pkix.Name{CommonName: "precert.example"}, NotBefore: nb, NotAfter: na,
-			KeyUsage: x509.KeyUsageDigitalSignature, DNSNames: []string{"precert.example"}, SubjectKeyId: []byte{3, 3, 3, 3},
-			ExtraExtensions: []pkix.Extension{{Id: OIDPoison, Critical: true, Value: []byte{5, 0}}}}
-		leafDER, err := x509.CreateCertificate(rand.Reader, leafT, pre, &leafKey.PublicKey, preKey)
-		if err != nil {
-			panic(err)
-		}
-		preChainDER = [][]byte{leafDER, preDER, caDER}
+		preChainPre, _ = x509.ParseCertificate(preDER)
+		preChainTop = [][]byte{preDER, caDER}
 	})
-	return preChainDER
+}
+
+// PreIssuerChain returns (generated once per run) the DER of [precertificate, Precertificate Signing Certificate (CT EKU), CA]:
+// the precertificate carries the critical poison extension and is signed by the signing certificate, which the CA issued.
+// The poison is the last extension (after the authority key identifier).
+func PreIssuerChain() [][]byte { return PreIssuerChainOrder("") }
+
+// PreIssuerChainOrder: the same chain with the precertificate's poison, authority key identifier and subject alternative name
+// in the given order, e.g. "poison,aki,san" (the other extensions — key usage, subject key identifier — come before them);
+// "" is the standard library's own order with the poison last.  The extension values do not depend on the order.
+func PreIssuerChainOrder(order string) [][]byte {
+	preChainSetup()
+	preChainMu.Lock()
+	defer preChainMu.Unlock()
+	if c, ok := preChainBy[order]; ok {
+		return c
+	}
+	nb, na := time.Date(2020, 1, 1, 0, 0, 0, 0, time.UTC), time.Date(2040, 1, 1, 0, 0, 0, 0, time.UTC)
+	leafT := &x509.Certificate{SerialNumber: big.NewInt(3), Subject: pkix.Name{CommonName: "precert.example"}, NotBefore: nb, NotAfter: na,
+		KeyUsage: x509.KeyUsageDigitalSignature, DNSNames: []string{"precert.example"}, SubjectKeyId: []byte{3, 3, 3, 3},
+		ExtraExtensions: []pkix.Extension{{Id: OIDPoison, Critical: true, Value: []byte{5, 0}}}}
+	if order != "" {
+		// what the standard library would write for the two extensions, placed by hand
+		aki := derWrap(0x30, derWrap(0x80, preChainPre.SubjectKeyId))
+		san := derWrap(0x30, derWrap(0x82, []byte("precert.example")))
+		leafT.DNSNames = nil
+		leafT.ExtraExtensions = nil
+		for _, name := range bytes.Split([]byte(order), []byte(",")) {
+			switch string(name) {
+			case "poison":
+				leafT.ExtraExtensions = append(leafT.ExtraExtensions, pkix.Extension{Id: OIDPoison, Critical: true, Value: []byte{5, 0}})
+			case "aki":
+				leafT.ExtraExtensions = append(leafT.ExtraExtensions, pkix.Extension{Id: oidAKI, Value: aki})
+			case "san":
+				leafT.ExtraExtensions = append(leafT.ExtraExtensions, pkix.Extension{Id: oidSAN, Value: san})
+			default:
+				panic("verifkit: unknown extension name " + string(name))
+			}
+		}
+	}
+	leafDER, err := x509.CreateCertificate(rand.Reader, leafT, preChainPre, &preChainKeys[2].PublicKey, preChainKeys[1])
+	if err != nil {
+		panic(err)
+	}
+	c := [][]byte{leafDER, preChainTop[0], preChainTop[1]}
+	preChainBy[order] = c
+	return c
+}
+
+// ExtensionOrder lists the extension OIDs of a certificate in order (dotted), for messages.
+func ExtensionOrder(der []byte) string {
+	c, err := x509.ParseCertificate(der)
+	if err != nil {
+		return "?"
+	}
+	var parts []string
+	for _, e := range c.Extensions {
+		parts = append(parts, e.Id.String())
+	}
+	return strings.Join(parts, " ")
+}
+
+// EmbeddedSCTChain builds, with the standard library, [final certificate with an embedded SCT list, CA] valid from notBefore to
+// notAfter.  sign(tbsWithoutList, issuerKeyHash) must return the serialized SCT to embed: the certificate is created twice from
+// the same template (a TBSCertificate is a deterministic function of the template), first with a placeholder list to learn the
+// TBSCertificate without the list, then with the real one.
+func EmbeddedSCTChain(notBefore, notAfter time.Time, sign func(tbs, ikh []byte) []byte) (chain [][]byte, err error) {
+	preChainSetup()
+	caKey, leafKey := preChainKeys[0], preChainKeys[2]
+	caT := &x509.Certificate{SerialNumber: big.NewInt(11), Subject: pkix.Name{CommonName: "verif CA for embedded SCTs"},
+		NotBefore: time.Date(1940, 1, 1, 0, 0, 0, 0, time.UTC), NotAfter: time.Date(2090, 1, 1, 0, 0, 0, 0, time.UTC), IsCA: true,
+		BasicConstraintsValid: true, KeyUsage: x509.KeyUsageCertSign, SubjectKeyId: []byte{9, 9, 9, 9}}
+	caDER, err := x509.CreateCertificate(rand.Reader, caT, caT, &caKey.PublicKey, caKey)
+	if err != nil {
+		return nil, err
+	}
+	ca, err := x509.ParseCertificate(caDER)
+	if err != nil {
+		return nil, err
+	}
+	mk := func(list []byte) ([]byte, error) {
+		t := &x509.Certificate{SerialNumber: big.NewInt(12), Subject: pkix.Name{CommonName: "embedded.example"}, NotBefore: notBefore, NotAfter: notAfter,
+			KeyUsage: x509.KeyUsageDigitalSignature, DNSNames: []string{"embedded.example"}, SubjectKeyId: []byte{8, 8, 8, 8},
+			ExtraExtensions: []pkix.Extension{{Id: OIDSCTList, Value: derWrap(0x04, list)}}}
+		return x509.CreateCertificate(rand.Reader, t, ca, &leafKey.PublicKey, caKey)
+	}
+	sctList := func(sct []byte) []byte {
+		inner := append([]byte{byte(len(sct) >> 8), byte(len(sct))}, sct...)
+		return append([]byte{byte(len(inner) >> 8), byte(len(inner))}, inner...)
+	}
+	first, err := mk(sctList([]byte{0}))
+	if err != nil {
+		return nil, err
+	}
+	c1, err := x509.ParseCertificate(first)
+	if err != nil {
+		return nil, err
+	}
+	tbs, err := StripExtension(c1.RawTBSCertificate, OIDSCTList)
+	if err != nil {
+		return nil, err
+	}
+	ikh := sha256.Sum256(ca.RawSubjectPublicKeyInfo)
+	final, err := mk(sctList(sign(tbs, ikh[:])))
+	if err != nil {
+		return nil, err
+	}
+	return [][]byte{final, caDER}, nil
 }
 
 // NonMinimalSerial re-encodes a certificate with its serial number INTEGER zero-padded by one octet (`02 02 00 01` for 1):
